@@ -78,7 +78,15 @@ def install(E: Any) -> None:
         symbol per element sort and key text) whose result is a permutation of xs
         (explicit index bijection + equal multiplicities) and non-decreasing in k.
         Stability is not modelled: callers needing a unique order must know the
-        keys are distinct."""
+        keys are distinct.
+
+        When the key reads only its argument and immutable fields, the facts are
+        emitted once as *global* axioms about the symbol (so they are available
+        for sorted(...) terms under quantifiers, e.g. inside comprehensions).  In
+        the logic the key is a total function (an out-of-range index denotes some
+        fixed value); a sorting function for a total key exists, and CPython's
+        result agrees with it whenever the key raises nothing - the raising case
+        is a separate exceptional path."""
         xs = self.as_seq(self.expr(n.args[0], st), st)
         key = None
         for kw in n.keywords:
@@ -93,23 +101,23 @@ def install(E: Any) -> None:
         fn = self.pre.func(f"sorted_{tag}", S, S)
         r = V(fn(xs.t), xs.ty)
         k = self.site()
-        i, j = z3.Ints(f"si{k} sj{k}")
 
-        def keyof(elem: Any) -> Any:
+        def keyof(elem: Any, st_: Any) -> Any:
             if key is None:
                 return elem
-            assert isinstance(key, ast.Lambda)
-            st2 = st.fork()
+            if not isinstance(key, ast.Lambda):
+                raise Unsupported("sorted key that is not a lambda", n)
+            st2 = st_.fork()
             st2.env[key.args.args[0].arg] = elem
             return self.expr(key.body, st2)
-        # exceptions raised by the key function on some element
+        # exceptions raised by the key function on some element (per call site)
         saved = self.pending_raises
         self.pending_raises = []
         st3 = st.fork()
         bv = z3.Int(f"sk{k}")
         inb = z3.And(0 <= bv, bv < self.seq_len(xs))
         st3.pc.append(inb)
-        kv = keyof(self.seq_idx(xs, bv))
+        kv = keyof(self.seq_idx(xs, bv), st3)
         inner = self.pending_raises
         self.pending_raises = saved
         for (pc_at, neg, exc, what) in inner:
@@ -117,37 +125,68 @@ def install(E: Any) -> None:
             rc = z3.Exists([bv], z3.And(*local, neg))
             self.pending_raises.append((list(st.pc), rc, exc, f"{what} (in sorted key)"))
             st.pc.append(z3.Not(rc))
-            st.pc.append(z3.ForAll([bv], z3.Implies(z3.And(*local), z3.Not(neg))))
+            st.pc.append(z3.ForAll([bv], z3.Implies(z3.And(*local), z3.Not(neg)), patterns=[self.seq_idx(xs, bv).t]))
         if kv.ty not in (INT, FLOAT, STR):
             raise Unsupported(f"sort key of type {kv.ty}", n)
-        saved_mode = self.mode_spec
-        self.mode_spec = True  # the facts below mention elements of r; no new checks
-        try:
-            ki = keyof(self.seq_idx(r, i)).t
-            kj = keyof(self.seq_idx(r, j)).t
-            if kv.ty == STR:
-                self.str_order_axioms()
-                lt = self.pre.func("str_lt", self.pre.Str, self.pre.Str, z3.BoolSort())
-                le = z3.Or(lt(ki, kj), ki == kj)
-            else:
-                le = ki <= kj
-            ln = self.seq_len(r)
-            self.assume(st, ln == self.seq_len(xs))
-            self.assume(st, z3.ForAll([i, j], z3.Implies(z3.And(0 <= i, i <= j, j < ln), le),
-                                      patterns=[z3.MultiPattern(self.seq_idx(r, i).t, self.seq_idx(r, j).t)]))
-            pi = self.pre.func(f"sortpi_{tag}", S, T.I, T.I)
-            pinv = self.pre.func(f"sortpinv_{tag}", S, T.I, T.I)
-            self.assume(st, z3.ForAll([i], z3.Implies(z3.And(0 <= i, i < ln), z3.And(
-                0 <= pi(xs.t, i), pi(xs.t, i) < ln, self.seq_idx(r, i).t == self.seq_idx(xs, pi(xs.t, i)).t,
-                pinv(xs.t, pi(xs.t, i)) == i)), patterns=[self.seq_idx(r, i).t]))
-            self.assume(st, z3.ForAll([j], z3.Implies(z3.And(0 <= j, j < ln), z3.And(
-                0 <= pinv(xs.t, j), pinv(xs.t, j) < ln, pi(xs.t, pinv(xs.t, j)) == j)), patterns=[self.seq_idx(xs, j).t]))
-            x = z3.Const(f"sx{k}", self.sort(ety))
-            cnt = self.pre.seqf(xs.ty, "count")
-            self.assume(st, z3.ForAll([x], cnt(r.t, x) == cnt(xs.t, x), patterns=[cnt(r.t, x)]))
-        finally:
-            self.mode_spec = saved_mode
         trust("sorted(xs, key=k): deterministic; result is a permutation of xs (index bijection, equal multiplicities), non-decreasing in k; stability not modelled")
+
+        def facts(xs_: Any, r_: Any, st_: Any) -> list[Any]:
+            i, j = z3.Ints(f"si{k} sj{k}")
+            out = []
+            saved_mode = self.mode_spec
+            self.mode_spec = True  # the facts mention elements of r; no new checks
+            try:
+                ki = keyof(self.seq_idx(r_, i), st_).t
+                kj = keyof(self.seq_idx(r_, j), st_).t
+                if kv.ty == STR:
+                    self.str_order_axioms()
+                    lt = self.pre.func("str_lt", self.pre.Str, self.pre.Str, z3.BoolSort())
+                    le = z3.Or(lt(ki, kj), ki == kj)
+                else:
+                    le = ki <= kj
+                ln = self.seq_len(r_)
+                out.append(ln == self.seq_len(xs_))
+                out.append(z3.ForAll([i, j], z3.Implies(z3.And(0 <= i, i <= j, j < ln), le),
+                                     patterns=[z3.MultiPattern(self.seq_idx(r_, i).t, self.seq_idx(r_, j).t)]))
+                pi = self.pre.func(f"sortpi_{tag}", S, T.I, T.I)
+                pinv = self.pre.func(f"sortpinv_{tag}", S, T.I, T.I)
+                out.append(z3.ForAll([i], z3.Implies(z3.And(0 <= i, i < ln), z3.And(
+                    0 <= pi(xs_.t, i), pi(xs_.t, i) < ln, self.seq_idx(r_, i).t == self.seq_idx(xs_, pi(xs_.t, i)).t,
+                    pinv(xs_.t, pi(xs_.t, i)) == i)), patterns=[self.seq_idx(r_, i).t]))
+                out.append(z3.ForAll([j], z3.Implies(z3.And(0 <= j, j < ln), z3.And(
+                    0 <= pinv(xs_.t, j), pinv(xs_.t, j) < ln, pi(xs_.t, pinv(xs_.t, j)) == j)), patterns=[self.seq_idx(xs_, j).t]))
+                x = z3.Const(f"sx{k}", self.sort(ety))
+                cnt = self.pre.seqf(xs_.ty, "count")
+                out.append(z3.ForAll([x], cnt(r_.t, x) == cnt(xs_.t, x), patterns=[cnt(r_.t, x)]))
+            finally:
+                self.mode_spec = saved_mode
+            return out
+        # closed key over immutable fields -> global axioms, once per symbol
+        gkey = f"sorted.{tag}"
+        if gkey in self.pre._done:
+            if gkey + ".global" in self.pre._done:
+                return r
+        else:
+            self.pre._done.add(gkey)
+            try:
+                from .engine import State as _State
+                q = V(z3.Const(f"sq_{tag}", S), xs.ty)
+                gst = _State()
+                self.fields_read = set()
+                fs = facts(q, V(fn(q.t), xs.ty), gst)
+                reads = set(self.fields_read)
+                mutable = [f for (rec, f) in reads if f in rec.mutable]
+                if mutable:
+                    raise Unsupported("sorted key reads a mutable field")
+                self.pre.ax(gkey, z3.ForAll([q.t], z3.And(*fs), patterns=[fn(q.t)]))
+                self.pre._done.add(gkey + ".global")
+                return r
+            except Unsupported:
+                pass
+            finally:
+                self.fields_read = None
+        for f in facts(xs, r, st):
+            self.assume(st, f)
         return r
     E.builtins["sorted"] = b_sorted
 
